@@ -64,6 +64,18 @@ SCEN = [
 ]
 
 
+def load_own_findings(ctx, pid):
+    """known_findings.d/<pid>.json entries that tools/mkknown.py has not merged yet"""
+    path = os.path.join(common.VERIF, 'known_findings.d', pid + '.json')
+    try:
+        with open(path, encoding='utf-8') as f:
+            own = json.load(f).get('findings', [])
+    except FileNotFoundError:
+        return
+    have = {k['id'] for k in ctx.known}
+    ctx.known += [k for k in own if k['id'] not in have and k['property'] == pid]
+
+
 class Hang(BaseException):
     pass
 
@@ -289,7 +301,7 @@ def do_query(env, qi, path=None):
     except Hang:
         return {'ok': False, 'cls': 'HANG', 'msg': 'query did not return within 30 s'}
     except BaseException as e:
-        return {'ok': False, 'cls': type(e).__name__, 'msg': str(e)[:400]}
+        return {'ok': False, 'cls': type(e).__name__, 'msg': str(e)[:400] + ' ... ' + str(e)[-600:] if len(str(e)) > 1000 else str(e)}
     finally:
         signal.alarm(0)
         s = None
@@ -475,6 +487,8 @@ def oracle_case(ctx, case, res, expected):
     deaths = 0
     raises = 0
     failures = []
+    msgs = []
+    excused = 0
     seen_faults = []
     for qn, q in enumerate(res['queries']):
         for f in q['faults']:
@@ -489,25 +503,31 @@ def oracle_case(ctx, case, res, expected):
         if q['ok']:
             if q['answer'] != expected[qi]:
                 ctx.fail('oracle', 'a Script after a helper crash answers differently from the undisturbed run',
-                         case_d, expected=expected[qi], observed=q['answer'], how=how)
+                         dict(case_d, symptom='answer'), expected=expected[qi], observed=q['answer'], how=how)
             continue
         failures.append(q['cls'])
+        msgs.append(q['msg'][:200])
         injected = q['cls'] == 'RuntimeError' and 'verif: injected' in q['msg']
         if q['cls'] == 'HANG':
-            ctx.fail('oracle', 'query hangs after a helper fault', case_d, observed=q, how=how)
+            ctx.fail('oracle', 'query hangs after a helper fault', dict(case_d, symptom='hang'),
+                     observed=q, how=how)
         elif injected:
             pass     # the helper raised, it did not die: the remote exception is what jedi documents
         elif q['cls'] != 'InternalError':
-            ctx.fail('oracle', 'a helper death surfaces as something else than InternalError', case_d,
+            ctx.fail('oracle', 'a helper death surfaces as something else than InternalError',
+                     dict(case_d, symptom='class'),
                      expected='InternalError', observed={'cls': q['cls'], 'msg': q['msg']}, how=how)
         if q['cls'] == 'InternalError' and q['zombies_after']:
-            ctx.fail('oracle', 'dead helper not reaped after the failing query (zombie)', case_d,
+            ctx.fail('oracle', 'dead helper not reaped after the failing query (zombie)',
+                     dict(case_d, symptom='zombie'),
                      observed={'zombies': q['zombies_after']}, how=how)
-        if len(failures) > deaths + raises:
-            ctx.fail('oracle', 'one helper death makes more than one query fail', case_d,
+        if len(failures) > deaths + raises + excused:
+            excused += 1          # report every surplus failure once
+            ctx.fail('oracle', 'one helper death makes more than one query fail',
+                     dict(case_d, symptom='count'),
                      expected='failing queries <= helper deaths',
                      observed={'failures': failures, 'deaths': deaths, 'helper_exceptions': raises,
-                               'msg': q['msg']}, how=how)
+                               'msgs': msgs}, how=how)
     if res['zombies_end'] or res['children_end']:
         ctx.fail('oracle', 'helper processes left behind after the environment was dropped', base,
                  observed={'zombies': res['zombies_end'], 'children': res['children_end']}, how=how)
@@ -527,7 +547,7 @@ def gen_cases(ctx, nreqs):
     """nreqs[qi] = requests an undisturbed run of scenario qi makes on a warm environment"""
     rng = ctx.subrng('cases')
     cases = []
-    n = ctx.size(44, 0)
+    n = ctx.size(24, 0)
     allq = list(range(len(SCEN)))
     if ctx.quick:
         for i in range(n):
@@ -640,15 +660,16 @@ def churn_case(n, seed):
                 ok = False
             iss = s._inference_state.compiled_subprocess
             me = id(iss)
+            # InferenceStateSubprocess objects alive in the parent when the last request of this query
+            # was served (kept Scripts, or jedi's own time caches holding on to an InferenceState):
+            # their helper-side state must stay, everything else must be gone
+            live = {pid_ for pid_, ref in rec.live.items() if ref() is not None} | {me}
             if rng.random() < 0.2:
                 kept.append(s)
             if kept and rng.random() < 0.3:
                 kept.pop(rng.randrange(len(kept)))
             s = iss = None
             gc.collect()
-            # InferenceStateSubprocess objects that are still alive in the parent (kept Scripts, or
-            # jedi's own time caches holding on to an InferenceState) - their helper state must stay
-            live = {pid_ for pid_, ref in rec.live.items() if ref() is not None} | {me}
             rec.read_log()
             st = None
             for e in reversed(rec.events):
@@ -694,6 +715,7 @@ def _churn_worker(a):
 
 def run(ctx):
     import multiprocessing as mp
+    load_own_findings(ctx, 'C14')
     expected, nreqs, base = baseline(ctx)
     usable = [qi for qi in range(len(SCEN)) if expected.get(qi) is not None]
     if len(usable) < 6:
@@ -716,7 +738,7 @@ def run(ctx):
     t0 = time.time()
     pool_ctx = mp.get_context('fork')
     with pool_ctx.Pool(1) as p1:
-        churn_async = p1.apply_async(_churn_worker, ((ctx.size(60, 200), ctx.seed),))
+        churn_async = p1.apply_async(_churn_worker, ((ctx.size(40, 200), ctx.seed),))
         results = run_cases(cases, jobs=ctx.size(12, 16))
         churn = churn_async.get(timeout=600)
     ctx.notes.append('C14: %d cases on the real code in %.1f s' % (len(cases), time.time() - t0))
